@@ -362,7 +362,8 @@ def answerB (blocks : List (List Event)) (q : Query) (unfl : List Event := []) :
     -- two values).  (a) The column holds numeric text and no JSON number: class dc-over-numeric-text, REPAIRED (patch
     -- c04-16: the query-time statistics fed the sketch the float64 image of the number, the ingest-time statistics the
     -- text; lib/e2ecmp.py L_FIXED — no latitude, a disagreement is reported under the name the defect had).  (b) The
-    -- column holds numeric text AND JSON numbers among the matched events: label grant:dcmixed:<f>, the residual class
+    -- column holds numeric text AND JSON numbers among the matched events or in the block of a matched numeric string:
+    -- label grant:dcmixed:<f>, the residual class
     -- e2e/stats/dc-over-numbers-and-numeric-text — whether 5 and "5" are one value is not stated, and the segment writer
     -- rewrites a numeric string that shares a block column with numbers as a number, so the record path sees another key
     -- than the ingest-time statistics.  The label names the aggregate it may explain, nothing else of the answer.
@@ -370,7 +371,10 @@ def answerB (blocks : List (List Event)) (q : Query) (unfl : List Event := []) :
       | .dc f =>
         let numText := must.any (fun e => match e.get f with | some (.str t) => (numericText? t).isSome | _ => false)
         let number := must.any (fun e => match e.get f with | some (.int _) => true | some (.dec _ _) => true | _ => false)
-        if numText && number then some ("grant:dcmixed:" ++ f)
+        -- … or a matched numeric string shares its BLOCK with a JSON number in f, matched or not (a block mate outside the
+        -- query window is enough for the writer to store the string as a number: `numStrGrants`)
+        let consolidated := (numStrGrants blocks).any (fun (v, k) => k == f && must.any (fun e => e.vid == v))
+        if numText && (number || consolidated) then some ("grant:dcmixed:" ++ f)
         else if numText then some "dc-over-numeric-text" else none
       | _ => none)
     let scls := scls ++ dcls.eraseDups
